@@ -176,7 +176,9 @@ fn dispatch(cfg: &Cfg, rep: &mut Report) {
         "C10" => props::c10::run(cfg, rep),
         "C14" => props::c14::run(cfg, rep),
         "C15" => props::c15::run(cfg, rep),
+        "C16" => props::c16::run(cfg, rep),
         "C17" => props::c17::run(cfg, rep),
+        "C18" => props::c18::run(cfg, rep),
         "C19" => props::c19::run(cfg, rep),
         "C20" => props::c20::run(cfg, rep),
         other => {
@@ -201,7 +203,9 @@ fn dispatch_replay(cfg: &Cfg, kind: &str, payload: &str, rep: &mut Report) {
         "C10" => props::c10::replay(kind, payload, rep),
         "C14" => props::c14::replay(payload, rep),
         "C15" => props::c15::replay(kind, payload, rep),
+        "C16" => props::c16::replay(payload, rep),
         "C17" => props::c17::replay(kind, payload, rep),
+        "C18" => props::c18::replay(payload, rep),
         "C19" => props::c19::replay(payload, rep),
         "C20" => props::c20::replay(kind, payload, rep),
         other => {
